@@ -152,6 +152,24 @@ channel_accept_writes(struct channel* self, uint32_t tf)
 }
 
 void
+channel_rewind(struct channel* self)
+{
+    lock_acquire(&self->lock);
+    for (uint32_t i = 0; i < self->holds.n; ++i) {
+        if (self->holds.pos[i] != self->head ||
+            self->holds.cycles[i] != self->cycle)
+            goto Finalize; // unread data: leave everything as it is
+    }
+    self->head = 0;
+    self->high = 0;
+    self->mapped = 0;
+    for (uint32_t i = 0; i < self->holds.n; ++i)
+        self->holds.pos[i] = 0;
+Finalize:
+    lock_release(&self->lock);
+}
+
+void
 channel_abort_write(struct channel* self)
 {
     lock_acquire(&self->lock);
